@@ -61,9 +61,18 @@ def gen_case(rng, tier, g):
     maxrows = 8 if tier == 'quick' else 12
     name = C03_NAMES[g % len(C03_NAMES)] if rng.random() < 0.7 \
         else rng.choice(C03_NAMES)
+    passthrough = False
+    if rng.random() < 0.15:
+        # views that hand the source's own row objects through unchanged
+        # make whatever sits on top of them work on the caller's rows
+        name = rng.choice(['wrap', 'skip', 'skipcomments', 'progress',
+                           'clock', 'cache', 'head', 'rowslice', 'select',
+                           'cat'])
+        passthrough = True
     rec = RECIPES[name]
     stack = [[name, rng.randrange(len(rec.variants))]]
-    if not rec.items and not rec.multi and rng.random() < 0.35:
+    if not rec.items and not rec.multi and (passthrough
+                                            or rng.random() < 0.35):
         for _ in range(rng.choice([1, 1, 2])):
             n2 = rng.choice(STACKABLE)
             stack.append([n2, rng.randrange(len(RECIPES[n2].variants))])
